@@ -1419,3 +1419,187 @@ Proof.
   - intros Hl Hn. destruct (users_of live d p) as [|r rs] eqn:E; [congruence|].
     assert (In r (used_of (u_peers x) d p)) by (apply Hu; rewrite E; left; reflexivity). unfold used_of in H. rewrite Hn in H. destruct H.
 Qed.
+
+(* ---- modifications: the updated FARs denote the peers they denoted before (TEID may change, action and outer-header address
+   may not): the reference sets stay those of the live FARs *)
+Definition stable_fars (live upd : list Agent.far) : Prop :=
+  forall f, In f upd -> exists g, In g live /\ fref g = fref f /\ forall d p, far_uses d p g = far_uses d p f.
+
+Lemma update_refcount_partial c all upd x x' log all' live :
+  send_update c all upd x = (x', Out ROk log all') -> refcount_ok x live -> stable_fars live (r_fars upd) -> refcount_ok x' live.
+Proof.
+  unfold send_update. intros H Hr Hs.
+  destruct (update_peers _ _ _ _) as [[x2 log2] r2] eqn:E2. destruct r2; try (inv_pairs; fail).
+  destruct (modify_cfg _ _ _ _ _ _ _) as [[x3 log3] r3] eqn:E3. inv_pairs.
+  assert (P3 : u_peers x' = u_peers x2).
+  { clear - E3. revert x2 log2 x' log E3. induction (r_pdrs all) as [|r pdrs IH]; intros x2 log2 x' log E3; cbn in E3; [inv_pairs; reflexivity|].
+    destruct (one_pdr c UModify (r_fars all) (r_qers all) r x2) as [[x1 l1] r1] eqn:E1. destruct r1; try (inv_pairs; fail).
+    destruct (one_pdr_ok _ _ _ _ _ _ _ _ E1) as (es & _ & (B & _) & _). rewrite (IH _ _ _ _ E3). exact B. }
+  assert (R2 : refcount_ok x2 (live ++ r_fars upd)).
+  { eapply update_peers_refcount; [exact E2|]. apply (refcount_ok_peers x); [apply fold_ue_update_peers | exact Hr]. }
+  destruct R2 as [W U]. split; [rewrite P3; exact W|]. intros d p r. rewrite P3, U, !users_of_in. split.
+  - intros [g [G1 [G2 G3]]]. apply in_app_or in G1. destruct G1 as [G1|G1]; [exists g; auto|].
+    destruct (Hs g G1) as (g0 & K1 & K2 & K3). exists g0. split; [exact K1|]. split; [rewrite K3; exact G2 | congruence].
+  - intros [g [G1 [G2 G3]]]. exists g. split; [apply in_or_app; left; exact G1 | auto].
+Qed.
+
+(* ---- histories of accepted establishments, deletions and restarts: the reference-set invariant at every point *)
+Lemma boot_peers g s : u_peers (fst (boot g s)) = [].
+Proof.
+  unfold boot. destruct (sw_batch (clear_updates up4_tables s) s) as [s1 cs1]. destruct (all_ok cs1); [|reflexivity].
+  destruct (write _ _) as [x2 cs2] eqn:W. apply write_peers in W. exact W.
+Qed.
+Lemma refcount_empty x : u_peers x = [] -> refcount_ok x [].
+Proof. intros H. unfold refcount_ok. rewrite H. split; [intros p []|]. intros d p r. cbn. tauto. Qed.
+
+Fixpoint live_fars (h : list (call * list N)) (live : list Agent.far) : list Agent.far :=
+  match h with
+  | [] => live
+  | (CAdd _ upd, _) :: r => live_fars r (live ++ r_fars upd)
+  | (CDel del, _) :: r => live_fars r (drop_refs (r_fars del) live)
+  | (CRestart, _) :: r => live_fars r []
+  | (CMod _ _, _) :: r => live_fars r live
+  end.
+(* every call is an establishment, a deletion or a restart; establishments and deletions are accepted; a deleted FAR is the
+   only live FAR with its <F-SEID, FAR id> *)
+Fixpoint est_del_history (g : ucfg) (x : up4) (h : list (call * list N)) (live : list Agent.far) : Prop :=
+  match h with
+  | [] => True
+  | (k, orc) :: r =>
+    (match k with
+     | CAdd _ upd => o_res (snd (step g x k orc)) = ROk
+     | CDel del => o_res (snd (step g x k orc)) = ROk /\ forall f, In f (r_fars del) -> sole_holder live f
+     | CRestart => True
+     | CMod _ _ => False
+     end) /\ est_del_history g (fst (step g x k orc)) r (live_fars [(k, orc)] live)
+  end.
+
+Lemma run_refcount g : forall h x live, refcount_ok x live -> est_del_history g x h live -> refcount_ok (run g x h) (live_fars h live).
+Proof.
+  induction h as [|[k orc] h IH]; intros x live Hr Hh; cbn [run live_fars]; [exact Hr|].
+  cbn [est_del_history] in Hh. destruct Hh as [Hk Hrest].
+  destruct k as [all upd|all upd|del|]; cbn [live_fars] in *.
+  - apply IH; [|exact Hrest]. cbn [step] in *. destruct (send_create (uc g) all upd x orc) as [x' [rs lg al]] eqn:E. cbn in Hk. subst rs.
+    eapply create_refcount; eauto.
+  - destruct Hk.
+  - destruct Hk as [Hk Hs]. apply IH; [|exact Hrest]. cbn [step] in *. destruct (send_delete (uc g) del x) as [x' [rs lg al]] eqn:E. cbn in Hk. subst rs.
+    eapply delete_refcount; eauto.
+  - apply IH; [|exact Hrest]. cbn [step]. apply refcount_empty. apply boot_peers.
+Qed.
+
+(* ================================================================== Part 7: witnesses (findings) and non-vacuity *)
+Module Wit.
+  Definition M := 4294967295.
+  Definition g0 : ucfg := UCfg (Cfg 3 1 [(9, 2)] 100 32 3000 16) 8 8 8.
+  (* uplink PDR under (N3 = 100, teid), downlink PDR under the UE address; no application filter *)
+  Definition ul (id fseid teid ue far : N) : Agent.pdr :=
+    Agent.Pdr id fseid 1 255 100 M teid M ue 10 far [] 1 false false ue M 0 0 (PortRange.PR 0 0) (PortRange.PR 0 0) 0 0.
+  Definition dl (id fseid ue far : N) : Agent.pdr :=
+    Agent.Pdr id fseid 2 255 0 0 0 0 ue 10 far [] 0 false false 0 0 ue M (PortRange.PR 0 0) (PortRange.PR 0 0) 0 0.
+  (* downlink PDR with an application filter (remote address sip, protocol) and a precedence *)
+  Definition dlf (id fseid ue far prec sip proto : N) : Agent.pdr :=
+    Agent.Pdr id fseid 2 255 0 0 0 0 ue prec far [] 0 false false sip M ue M (PortRange.PR 0 65535) (PortRange.PR 0 65535) proto 255.
+  Definition ulfar (id fseid : N) : Agent.far := Agent.Far id fseid 1 false 2 0 0 0 0 0.
+  Definition dlfar (id fseid gnb teid : N) : Agent.far := Agent.Far id fseid 0 false 2 1 100 gnb teid 2152.
+
+  (* one session forwarding to gNB 900 *)
+  Definition s1 : rules := Rules [RP (ul 1 5 7 50 1) 0; RP (dl 2 5 50 2) 0] [ulfar 1 5; dlfar 2 5 900 8] [].
+  Definition x1 := step g0 (init g0) (CAdd s1 s1) [0; 1].
+  (* F26a: Update FAR 2 to gNB 901 *)
+  Definition s1' : rules := Rules (o_all (snd x1)) [ulfar 1 5; dlfar 2 5 901 9] [].
+  Definition x2 := step g0 (fst x1) (CMod s1' (Rules [] [dlfar 2 5 901 9] [])) [].
+  (* F26b: Update PDR 2 with a new application filter *)
+  Definition s1k : rules := Rules [RP (ul 1 5 7 50 1) 0; RP (dlf 2 5 50 2 10 1234 17) 1] [ulfar 1 5; dlfar 2 5 900 8] [].
+  Definition x3 := step g0 (fst x1) (CMod s1k (Rules [RP (dlf 2 5 50 2 10 1234 17) 0] [] [])) [].
+  (* F0401 / F0402: two downlink PDRs of one UE share the sessions_downlink entry *)
+  Definition s2 : rules := Rules [RP (ul 1 6 7 60 1) 0; RP (dl 2 6 60 2) 0; RP (ul 3 6 9 60 3) 0; RP (dlf 4 6 60 4 10 1234 17) 0]
+                                 [ulfar 1 6; dlfar 2 6 900 8; ulfar 3 6; dlfar 4 6 900 10] [].
+  Definition y1 := step g0 (init g0) (CAdd s2 s2) [0; 1; 2; 3].
+  Definition y2 := step g0 (fst y1) (CDel (Rules (o_all (snd y1)) (r_fars s2) [])) [].
+  Definition y3 := step g0 (fst y1) (CDel (Rules (skipn 2 (o_all (snd y1))) [ulfar 3 6; dlfar 4 6 900 10] [])) [].
+  Definition sdl_key (ue : N) : nkey := ("PreQosPipeSessionsDownlink"%string, [("ue_address"%string, NExact ue)], 0).
+  (* F0403: one application filter, two precedences *)
+  Definition sa : rules := Rules [RP (ul 1 7 7 70 1) 0; RP (dlf 2 7 70 2 200 1234 17) 0] [ulfar 1 7; dlfar 2 7 900 8] [].
+  Definition sb : rules := Rules [RP (ul 1 8 9 80 1) 0; RP (dlf 2 8 80 2 201 1234 17) 0] [ulfar 1 8; dlfar 2 8 900 10] [].
+  Definition z1 := step g0 (init g0) (CAdd sa sa) [0; 1].
+  Definition z2 := step g0 (fst z1) (CAdd sb sb) [2; 3].
+  Definition z3 := step g0 (fst z2) (CDel (Rules (o_all (snd z1)) (r_fars sa) [])) [].
+  Definition z4 := step g0 (fst z3) (CDel (Rules (o_all (snd z2)) (r_fars sb) [])) [].
+  Definition apps_of (x : up4) : list nentry := filter (fun e => String.eqb (ne_table e) t_apps) (sw_entries (u_sw x)).
+End Wit.
+Import Wit.
+
+(* F26a: an accepted modification after which a tunnel peer (and its table entry) exists that no live FAR denotes *)
+Lemma wit_update_far_new_peer :
+  o_res (snd x1) = ROk /\ o_res (snd x2) = ROk /\
+  peer_get 900 2152 (u_peers (fst x2)) <> None /\ users_of (r_fars s1') 900 2152 = [] /\
+  has_key (key_of (n_tunnel_peer 2 100 900 2152)) (sw_entries (u_sw (fst x2))) = true /\
+  ~ refcount_ok (fst x2) (r_fars s1').
+Proof.
+  repeat split; try (vm_compute; (reflexivity || discriminate)).
+  intros [_ H]. specialize (H 900 2152 (5, 2)). vm_compute in H. destruct H as [H _]. destruct H; auto.
+Qed.
+
+(* F26b: an Update PDR that changes a key is refused (MODIFY of a missing entry), and an application id stays allocated
+   although the applications table has no entry for it *)
+Lemma wit_update_pdr_key :
+  o_res (snd x1) = ROk /\ o_res (snd x3) = RErr /\ List.length (u_apps (fst x3)) = 1%nat /\ apps_of (fst x3) = [].
+Proof. repeat split; vm_compute; reflexivity. Qed.
+
+(* F0401: the deletion of a session whose two downlink PDRs share their sessions_downlink entry is refused after the shared entry
+   (and more) is gone; the tunnel peer keeps both FARs as users *)
+Lemma wit_delete_shared_key :
+  o_res (snd y1) = ROk /\ o_res (snd y2) = RErr /\
+  get_key (sdl_key 60) (sw_entries (u_sw (fst y1))) <> None /\ get_key (sdl_key 60) (sw_entries (u_sw (fst y2))) = None /\
+  List.length (sw_entries (u_sw (fst y2))) = 5%nat /\ used_of (u_peers (fst y2)) 900 2152 = [(6, 2); (6, 4)].
+Proof. repeat split; vm_compute; (reflexivity || discriminate). Qed.
+
+(* F0402: removing PDR 3 and 4 (accepted) removes the sessions_downlink entry PDR 2 still denotes, and the F-SEID -> UE mapping *)
+Lemma wit_remove_shared_key :
+  o_res (snd y1) = ROk /\ o_res (snd y3) = ROk /\
+  get_key (sdl_key 60) (sw_entries (u_sw (fst y3))) = None /\ u_f2ue (fst y3) = [] /\ u_f2ue (fst y1) = [(6, 60)].
+Proof. repeat split; vm_compute; reflexivity. Qed.
+
+(* F0403: the last user of an application filter cannot remove the entry the first user installed with another precedence *)
+Lemma wit_delete_app_priority :
+  o_res (snd z1) = ROk /\ o_res (snd z2) = ROk /\ o_res (snd z3) = ROk /\ o_res (snd z4) = RErr /\
+  u_apps (fst z4) = [] /\ List.length (apps_of (fst z4)) = 1%nat.
+Proof. repeat split; vm_compute; reflexivity. Qed.
+
+(* the unguarded refcount statement is false for modifications: x2 is reached by an accepted establishment and an accepted
+   modification from a state with the invariant, and violates it *)
+Lemma update_refcount_refuted :
+  exists g x all upd x' log all' live live',
+    refcount_ok x live /\ send_update (uc g) all upd x = (x', Out ROk log all') /\ live' = r_fars all /\ ~ refcount_ok x' live'.
+Proof.
+  exists g0, (fst x1), s1', (Rules [] [dlfar 2 5 901 9] []), (fst x2), (o_log (snd x2)), (o_all (snd x2)), (r_fars s1), (r_fars s1').
+  split; [|split; [vm_compute; reflexivity|split; [reflexivity|apply wit_update_far_new_peer]]].
+  replace (r_fars s1) with ([] ++ r_fars s1) by reflexivity.
+  eapply (create_refcount (uc g0) s1 s1 (init g0) [0; 1]); [vm_compute; reflexivity|]. apply refcount_empty. vm_compute. reflexivity.
+Qed.
+
+(* non-vacuity: a history of accepted establishments / deletions / a restart in which two sessions share a gNB; after the first
+   deletion the peer is still there with the other session as user, after the second it is gone *)
+Definition t1 : rules := Rules [RP (ul 1 7 7 70 1) 0; RP (dl 2 7 70 2) 0] [ulfar 1 7; dlfar 2 7 900 8] [].
+Definition t2 : rules := Rules [RP (ul 1 8 9 80 1) 0; RP (dl 2 8 80 2) 0] [ulfar 1 8; dlfar 2 8 900 10] [].
+Definition h_share : list (call * list N) :=
+  [(CAdd t1 t1, [0; 1]); (CAdd t2 t2, [2; 3]); (CDel (Rules [RP (ul 1 7 7 70 1) 0; RP (dl 2 7 70 2) 1] (r_fars t1) []), []);
+   (CRestart, []); (CAdd t1 t1, [5; 4])].
+Lemma h_share_good : est_del_history g0 (init g0) h_share [] /\
+  used_of (u_peers (run g0 (init g0) (firstn 3 h_share))) 900 2152 = [(8, 2)] /\
+  List.length (sw_entries (u_sw (run g0 (init g0) (firstn 3 h_share)))) = 7%nat /\
+  used_of (u_peers (run g0 (init g0) h_share)) 900 2152 = [(7, 2)].
+Proof.
+  split; [|repeat split; vm_compute; reflexivity].
+  cbn [est_del_history h_share]. repeat split; try (vm_compute; reflexivity).
+  intros f Hf g Hg Hr. vm_compute in Hf, Hg. destruct Hf as [<-|[<-|[]]]; destruct Hg as [<-|[<-|[<-|[<-|[]]]]]; try reflexivity; vm_compute in Hr; inversion Hr.
+Qed.
+
+(* non-vacuity of the guard of the modification theorem: an Update FAR that only changes the TEID is accepted and stable *)
+Definition s1t : rules := Rules (o_all (snd x1)) [ulfar 1 5; dlfar 2 5 900 99] [].
+Lemma stable_inhabited :
+  stable_fars (r_fars s1) [dlfar 2 5 900 99] /\ o_res (snd (step g0 (fst x1) (CMod s1t (Rules [] [dlfar 2 5 900 99] [])) [])) = ROk.
+Proof.
+  split; [|vm_compute; reflexivity]. intros f [<-|[]]. exists (dlfar 2 5 900 8). split; [right; left; reflexivity|]. split; [reflexivity|].
+  intros d p. reflexivity.
+Qed.
